@@ -702,9 +702,12 @@ func (po *PinOptions) ToQuery() (string, error) {
 	}
 
 	if len(po.Origins) > 0 {
-		origins := make([]string, len(po.Origins))
-		for i, o := range po.Origins {
-			origins[i] = o.String()
+		origins := make([]string, 0, len(po.Origins))
+		for _, o := range po.Origins {
+			if o == nil { // e.g. decoded from a JSON null
+				continue
+			}
+			origins = append(origins, o.String())
 		}
 		q.Set("origins", strings.Join(origins, ","))
 	}
@@ -920,9 +923,12 @@ func (pin *Pin) ProtoMarshal() ([]byte, error) {
 
 	// Cursory google search says len=0 slices will be
 	// decoded as null, which is fine.
-	origins := make([][]byte, len(pin.Origins))
-	for i, orig := range pin.Origins {
-		origins[i] = orig.Bytes()
+	origins := make([][]byte, 0, len(pin.Origins))
+	for _, orig := range pin.Origins {
+		if orig == nil { // e.g. decoded from a JSON null
+			continue
+		}
+		origins = append(origins, orig.Bytes())
 	}
 
 	var expireAtProto uint64
